@@ -1039,6 +1039,13 @@ impl<const N: usize> SubscriptionsInner<N> {
 
     /// Remove entries that every subscription has already reported on.
     fn purge_reported_changes(&mut self) {
+        if self.subscriptions.len() != self.subscriptions_count {
+            // A subscription is in flight - notably one being primed, which spans several
+            // round trips and is not in the table yet. Its watermark is not visible here,
+            // and the changes recorded since it was accepted are still owed to it.
+            return;
+        }
+
         if let Some(min_seen_attr_change_id) = self
             .subscriptions
             .iter()
